@@ -137,8 +137,8 @@ fn peel<'tcx>(mut t: Ty<'tcx>) -> Ty<'tcx> {
 }
 
 fn ty_str_traitref<'tcx>(_tcx: TyCtxt<'tcx>, tr: ty::TraitRef<'tcx>) -> String {
-    use rustc_middle::ty::print::{with_no_trimmed_paths, with_resolve_crate_name};
-    with_resolve_crate_name!(with_no_trimmed_paths!(format!("{}", tr.print_only_trait_path())))
+    use rustc_middle::ty::print::{with_no_trimmed_paths, with_no_visible_paths, with_resolve_crate_name};
+    with_resolve_crate_name!(with_no_visible_paths!(with_no_trimmed_paths!(format!("{}", tr.print_only_trait_path()))))
 }
 
 fn vis_str<'tcx, I: std::fmt::Debug>(_tcx: TyCtxt<'tcx>, v: ty::Visibility<I>) -> String {
